@@ -232,6 +232,15 @@ fn random_arc(ctx: &mut Ctx, index: u64, r: &mut Rng, bufs: &mut CurveBuffers) {
                 b = (b.0.round(), b.1.round());
             }
         }
+        5 => {
+            // middle point a few micro-pixels from an end point but off the chord: a tiny, decisively non-zero
+            // determinant (between 1e-7 and 1e-3) and a perfectly ordinary circle
+            let e = |r: &mut Rng| f32r((1.0 + 9.0 * r.f()) * [1e-6, 1e-5, 3e-5][r.below(3)] * if r.chance(1, 2) { 1.0 } else { -1.0 });
+            let len = 20.0 + r.f() * 300.0;
+            let th = r.f() * 2.0 * PI;
+            c = (f32r(len * th.cos()), f32r(len * th.sin()));
+            b = if r.chance(1, 2) { (e(r), e(r)) } else { (f32r(c.0 + e(r)), f32r(c.1 + e(r))) };
+        }
         1 => {
             // threshold-riding: radius/angle so that the sub-point count sits just below an integer
             let rad = 20.0 + r.f() * 300.0;
@@ -269,8 +278,11 @@ fn arc_case(ctx: &mut Ctx, index: u64, a: P, b: P, c: P, bufs: &mut CurveBuffers
             return;
         }
         let cross = (b.1 - a.1) * (c.0 - a.0) - (b.0 - a.0) * (c.1 - a.1);
-        let m = [b.0.abs(), b.1.abs(), c.0.abs(), c.1.abs()].iter().copied().fold(1.0, f64::max);
-        let noise = 8.0 * ulp32(m * m);
+        let m = [a.0.abs(), a.1.abs(), b.0.abs(), b.1.abs(), c.0.abs(), c.1.abs()].iter().copied().fold(1.0, f64::max);
+        // single-precision noise of the determinant: relative rounding of the two products (the differences
+        // of exactly representable coordinates are themselves correctly rounded)
+        let eps32 = f64::from(f32::EPSILON) / 2.0;
+        let noise = 16.0 * eps32 * (((b.1 - a.1) * (c.0 - a.0)).abs() + ((b.0 - a.0) * (c.1 - a.1)).abs());
         let bezier_like = || {
             let ex: Vec<P> = (0..=400).map(|i| bez(&[a, b, c], f64::from(i) / 400.0)).collect();
             let tol = 0.3 + 64.0 * ulp32(m);
@@ -307,8 +319,13 @@ fn arc_case(ctx: &mut Ctx, index: u64, a: P, b: P, c: P, bufs: &mut CurveBuffers
             range = 2.0 * PI - range;
         }
         let nexp = if 2.0 * rad <= 0.1 { 2.0 } else { (range / (2.0 * (1.0 - 0.1 / rad).acos())).ceil().max(2.0) };
-        // worst-case f32 conditioning of the circumcentre, in px
-        let cond = rad * 16.0 * ulp32(m * m) / d.abs() + ulp32(rad + m) * 8.0;
+        // single-precision conditioning of the circumcentre, in px: rounding of the numerator sums and of the
+        // denominator, each relative to the magnitude of its own terms (not of the largest coordinate)
+        let s_d = 2.0 * ((a.0 * (b.1 - c.1)).abs() + (b.0 * (c.1 - a.1)).abs() + (c.0 * (a.1 - b.1)).abs());
+        let s_nx = (a2 * (b.1 - c.1)).abs() + (b2 * (c.1 - a.1)).abs() + (c2 * (a.1 - b.1)).abs();
+        let s_ny = (a2 * (c.0 - b.0)).abs() + (b2 * (a.0 - c.0)).abs() + (c2 * (b.0 - a.0)).abs();
+        let cmax = ctr.0.abs().max(ctr.1.abs());
+        let cond = 32.0 * eps32 * (s_nx.max(s_ny) / d.abs() + cmax * s_d / d.abs()) + ulp32(rad + m) * 8.0;
         if nexp > 1015.0 || rad > 1e6 {
             if bezier_like() {
                 ctx.count("arc_enormous_fallback");
